@@ -1,5 +1,42 @@
 """C05 -- decided with spec/Session.tla; see harness/session_props.py for the plan and DESIGN.md section 5."""
-from harness import session_check, session_props
+from harness import core, session_check, session_props
+
+
+def odd_keys(report):
+    """
+    IsUnique over two Text fields whose values hold characters a key could be glued together with (unit separator, bar,
+    comma, tab, blank, quote-comma-quote): two rows are duplicates iff they have the same values in BOTH fields. The oracle
+    is that sentence (tuple equality); every table of three rows over the value pool is read.
+    """
+    import io
+    import itertools
+    core.import_repo()
+    import cutplace
+    from cutplace import errors
+    for separator in ("\x1f", "|", ",", "\t", " ", "', '", "\x1e", ";"):
+        if True:
+            pool = [("a", separator + "b"), ("a" + separator, "b"), ("a", "b"), (separator, ""), ("", separator), ("a" + separator + "b", "c"),
+                    ("a", "b" + separator + "c")]
+        cid = cutplace.Cid()
+        cid.read("cid", [["D", "Format", "delimited"], ["D", "Item delimiter", "0x1d"], ["D", "Quote character", "~"],
+                         ["F", "a", "", "X"], ["F", "b", "", "X"], ["C", "pair is unique", "IsUnique", "a, b"]])
+        for rows in itertools.product(pool, repeat=3):
+            text = "".join("\x1d".join(row) + "\r\n" for row in rows)
+            if any(ch in text for ch in "~") or "\n" in "".join("".join(row) for row in rows):
+                continue
+            report.replayed += 1
+            want = ["dup" if any(rows[j] == rows[i] for j in range(i)) else "ok" for i in range(3)]
+            try:
+                got = ["dup" if isinstance(item, errors.CheckError) else ("ok" if not isinstance(item, Exception) else "other")
+                       for item in cutplace.rows(cid, io.StringIO(text, newline=""), on_error="yield")]
+            except Exception as error:  # noqa
+                got = "%s: %s" % (type(error).__name__, error)
+            if got != want:
+                report.violation("c05", {"odd_keys": [list(row) for row in rows]}, want, got,
+                                 "IsUnique over (a, b), rows %r: verdicts are %s but must be %s (duplicate = same values in both fields)" % (
+                                     list(rows), got, want))
+                return
+    report.notes["odd_keys"] = "tables of three rows over key values with glue characters read under IsUnique(a, b)"
 
 
 def run(tier, report):
@@ -11,6 +48,7 @@ def run(tier, report):
     # two validators alive at the same time on one Cid (known finding D45)
     from harness import shared_cid
     shared_cid.run(report)
+    odd_keys(report)
     return session_props.run_plan("C05", tier, report)
 
 
